@@ -64,6 +64,13 @@ def plans_for(o0, s, kinds, errnos=("EIO", "ENOSPC", "EXDEV", "EACCES"), sigs=(1
         if "sig" in kinds and op["op"] != "close":
             for sg in sigs:
                 plans.append(Plan("%d=sig:%d" % (k, sg), "sig", op, sg))
+        if "sig2" in kinds and op["op"] != "close":
+            # the user presses Ctrl-C twice (or a supervisor sends SIGTERM after SIGINT): a second stop signal
+            # at one of the next operations must change nothing
+            later = [o2["k"] for o2 in ops if o2["k"] > k and o2["op"] != "close"][:3]
+            for j, k2 in enumerate(later[:2]):
+                sg, sg2 = (sigs[0], sigs[-1]) if j == 0 else (sigs[-1], sigs[-1])
+                plans.append(Plan("%d=sig:%d,%d=sig:%d" % (k, sg, k2, sg2), "sig", op, sg))
     return order, ops, plans
 
 
